@@ -193,7 +193,7 @@ Theorem pack_partition c addr change arr : wfm (massets change) ->
   partition_of arr (massets change) /\ Forall wfm arr.
 Proof.
   intros W H. unfold pack_tokens in H.
-  destruct (fold_left (policy_step c addr mc) (massets change) (Ok ([], mkValue (coin change) []))) as [[arr1 out]|e] eqn:E;
+  destruct (fold_left (policy_step c addr (coin change)) (massets change) (Ok ([], mkValue (coin change) []))) as [[arr1 out]|e] eqn:E;
     [|discriminate].
   inversion H; subst arr. clear H.
   assert (W0 : wfpo ([], mkValue (coin change) [])) by (split; [constructor | apply wfm_nil]).
@@ -290,7 +290,7 @@ Theorem pack_parts_pos c addr change arr : wfm (massets change) -> nonneg_m (mas
 Proof.
   intros W Hn H. destruct (pack_partition c addr change arr W H) as [_ Wf].
   unfold pack_tokens in H.
-  destruct (fold_left (policy_step c addr mc) (massets change) (Ok ([], mkValue (coin change) []))) as [[arr1 out]|e] eqn:E;
+  destruct (fold_left (policy_step c addr (coin change)) (massets change) (Ok ([], mkValue (coin change) []))) as [[arr1 out]|e] eqn:E;
     [|discriminate].
   inversion H; subst arr. clear H.
   assert (W0 : wfpo ([], mkValue (coin change) [])) by (split; [constructor | apply wfm_nil]).
@@ -342,31 +342,6 @@ Proof.
 Qed.
 Lemma Wd_1e6 : Wd 1000000 = 5%N.
 Proof. reflexivity. Qed.
-
-Lemma be_min_fuel_ge3 f n : (3 <= f)%nat -> (65536 <= n)%N -> (3 <= lenN (be_min_fuel f n))%N.
-Proof.
-  intros Hf Hn. destruct f as [|[|[|f]]]; try lia. cbn [be_min_fuel].
-  assert (A : (n =? 0)%N = false) by lia. rewrite A.
-  assert (H1 : (256 <= n / 256)%N) by (apply N.div_le_lower_bound; lia).
-  assert (B : (n / 256 =? 0)%N = false) by lia. rewrite B.
-  assert (H2 : (1 <= n / 256 / 256)%N) by (apply N.div_le_lower_bound; lia).
-  assert (D : (n / 256 / 256 =? 0)%N = false) by lia. rewrite D.
-  rewrite !lenN_app. cbn [lenN]. lia.
-Qed.
-
-Lemma Wd_ge5 z : 65536 <= z -> (5 <= Wd z)%N.
-Proof.
-  intros H. unfold Wd, cint. destruct (0 <=? z) eqn:E1; [|lia].
-  destruct (z <? two64z) eqn:E2.
-  - cbn [enc]. rewrite head_length. unfold width.
-    repeat match goal with |- context [(?a <? ?b)%N] => destruct (a <? b)%N eqn:? end; lia.
-  - cbn [enc]. rewrite !lenN_app, !head_length.
-    assert (G : (3 <= lenN (be_min (Z.to_N z)))%N).
-    { unfold be_min. apply be_min_fuel_ge3; [|unfold two64z in *; lia].
-      assert (L : (16 <= N.log2 (Z.to_N z))%N) by (apply N.log2_le_pow2; unfold two64z in *; lia). lia. }
-    pose proof (width_mono 0 (lenN (be_min (Z.to_N z))) ltac:(lia)) as M1.
-    change (width 0) with 1%N in M1. change (width 2) with 1%N. lia.
-Qed.
 
 (* ---------- the size test depends on (coin, content) only ---------- *)
 Lemma value_prim_canonical v1 v2 : wfv v1 -> wfv v2 -> coin v1 = coin v2 ->
@@ -492,16 +467,16 @@ Qed.
 (* pack_fits: when every single asset fits, every part passed the size test (sized with the minimum ADA
    of the output carrying it) *)
 Theorem pack_fits c addr change arr : wfm (massets change) ->
-  singles_fit c addr mc (massets change) -> fit c addr mc (mkValue (coin change) []) ->
-  pack_tokens c addr change = Ok arr -> Forall (part_fits c addr mc) arr.
+  singles_fit c addr (coin change) (massets change) -> fit c addr (coin change) (mkValue (coin change) []) ->
+  pack_tokens c addr change = Ok arr -> Forall (part_fits c addr (coin change)) arr.
 Proof.
   intros W Hs Hb H. unfold pack_tokens in H.
-  destruct (fold_left (policy_step c addr mc) (massets change) (Ok ([], mkValue (coin change) []))) as [[arr1 out]|e] eqn:E;
+  destruct (fold_left (policy_step c addr (coin change)) (massets change) (Ok ([], mkValue (coin change) []))) as [[arr1 out]|e] eqn:E;
     [|discriminate].
   inversion H; subst arr. clear H.
   assert (W0 : wfpo ([], mkValue (coin change) [])) by (split; [constructor | apply wfm_nil]).
-  assert (F0 : fitpo c addr mc ([], mkValue (coin change) [])) by (split; [constructor | exact Hb]).
-  pose proof (policy_fold_fit c addr mc _ _ _ W0 F0 Hs E) as [Fa Fo]. cbn [fst snd] in *.
+  assert (F0 : fitpo c addr (coin change) ([], mkValue (coin change) [])) by (split; [constructor | exact Hb]).
+  pose proof (policy_fold_fit c addr _ _ _ _ W0 F0 Hs E) as [Fa Fo]. cbn [fst snd] in *.
   apply Forall_app. split; [exact Fa|]. constructor; [|constructor].
   exists (coin out). now rewrite value_eta.
 Qed.
@@ -509,10 +484,10 @@ Qed.
 (* and then the packer does not refuse: the InvalidTransactionException of the final re-check needs an
    asset that does not fit on its own *)
 Theorem pack_total c addr change : wfm (massets change) ->
-  singles_fit c addr mc (massets change) -> fit c addr mc (mkValue (coin change) []) ->
+  singles_fit c addr (coin change) (massets change) -> fit c addr (coin change) (mkValue (coin change) []) ->
   exists arr, pack_tokens c addr change = Ok arr.
 Proof.
-  intros W Hs Hb. unfold pack_tokens.
+  intros W Hs Hb. unfold pack_tokens. set (mc := coin change) in *.
   assert (G : forall l s, wfpo s -> fitpo c addr mc s -> singles_fit c addr mc l ->
               exists s', fold_left (policy_step c addr mc) l (Ok s) = Ok s').
   { induction l as [|pa l IH]; intros s Ws Fs Hl; cbn [fold_left]; [now exists s|].
@@ -528,8 +503,8 @@ Proof.
       destruct (policy_step_held c addr mc (arr, out) (pid, assets) s1 Wp E) as [W1 _].
       apply IH; [exact W1 | exact (policy_step_fit c addr mc (arr, out) (pid, assets) s1 Wp Fp Hpa E) | exact Hl'].
     - exfalso. cbn [policy_step fst snd] in E. unfold fit in Fo1. rewrite Fo1 in E. discriminate. }
-  assert (W0 : wfpo ([], mkValue (coin change) [])) by (split; [constructor | apply wfm_nil]).
-  assert (F0 : fitpo c addr mc ([], mkValue (coin change) [])) by (split; [constructor | exact Hb]).
+  assert (W0 : wfpo ([], mkValue mc [])) by (split; [constructor | apply wfm_nil]).
+  assert (F0 : fitpo c addr mc ([], mkValue mc [])) by (split; [constructor | exact Hb]).
   destruct (G _ _ W0 F0 Hs) as [[arr out] E]. rewrite E. eauto.
 Qed.
 
@@ -551,9 +526,9 @@ Qed.
 Lemma msz_nil : msz [] = 0%N.
 Proof. reflexivity. Qed.
 
-Theorem singles_fit_in_range c addr p n q c0 :
+Theorem singles_fit_in_range c addr mc p n q c0 :
   lenN p = 28%N -> (lenN n <= 32)%N -> 0 < q < two64z ->
-  0 <= reqd c addr (mkValue c0 [(p, [(n, q)])]) < two64z -> 85 <= max_val_size c ->
+  0 <= Z.max (reqd c addr (mkValue c0 [(p, [(n, q)])])) mc < two64z -> 85 <= max_val_size c ->
   fit c addr mc (mkValue c0 [(p, [(n, q)])]).
 Proof.
   intros Lp Ln Hq Hr Hm. unfold fit. rewrite too_big_eq. cbn [massets].
@@ -565,11 +540,50 @@ Proof.
   lia.
 Qed.
 
-Theorem base_fit_in_range c addr c0 :
-  0 <= reqd c addr (mkValue c0 []) < two64z -> 9 <= max_val_size c -> fit c addr mc (mkValue c0 []).
+Theorem base_fit_in_range c addr mc c0 :
+  0 <= Z.max (reqd c addr (mkValue c0 [])) mc < two64z -> 9 <= max_val_size c -> fit c addr mc (mkValue c0 []).
 Proof.
   intros Hr Hm. unfold fit. rewrite too_big_eq. cbn [massets]. rewrite msz_nil.
   pose proof (Wd_le9 _ Hr). lia.
+Qed.
+
+(* the encoded length of an integer is monotone (for the smaller one below 2^64) *)
+Lemma be_min_fuel_ge : forall k f n, (k <= f)%nat -> (256 ^ N.of_nat k <= 256 * n)%N ->
+  (N.of_nat k <= lenN (be_min_fuel f n))%N.
+Proof.
+  induction k as [|k IH]; intros f n Hf Hn; [lia|].
+  destruct f as [|f]; [lia|]. cbn [be_min_fuel].
+  rewrite Nnat.Nat2N.inj_succ, N.pow_succ_r' in Hn.
+  assert (Hk : (256 ^ N.of_nat k <= n)%N) by lia.
+  pose proof (N.pow_nonzero 256 (N.of_nat k) ltac:(lia)) as Hnz.
+  assert (E : (n =? 0)%N = false) by lia. rewrite E, lenN_app. cbn [lenN].
+  destruct k as [|k']; [lia|].
+  assert (G : (256 ^ N.of_nat (S k') <= 256 * (n / 256))%N).
+  { rewrite Nnat.Nat2N.inj_succ, N.pow_succ_r' in Hk |- * by lia.
+    assert (256 ^ N.of_nat k' <= n / 256)%N by (apply N.div_le_lower_bound; lia). lia. }
+  specialize (IH f (n / 256)%N ltac:(lia) G). lia.
+Qed.
+
+Lemma Wd_big y : two64z <= y -> (11 <= Wd y)%N.
+Proof.
+  intros H. unfold Wd, cint. destruct (0 <=? y) eqn:E1; [|unfold two64z in *; lia].
+  destruct (y <? two64z) eqn:E2; [lia|].
+  cbn [enc]. rewrite !lenN_app, !head_length.
+  assert (G : (9 <= lenN (be_min (Z.to_N y)))%N).
+  { unfold be_min. change 9%N with (N.of_nat 9). apply be_min_fuel_ge.
+    - assert (L : (64 <= N.log2 (Z.to_N y))%N) by (apply N.log2_le_pow2; unfold two64z in *; lia). lia.
+    - unfold two64z in *. change (256 ^ N.of_nat 9)%N with 4722366482869645213696%N. lia. }
+  pose proof (width_mono 0 (lenN (be_min (Z.to_N y))) ltac:(lia)) as M1.
+  change (width 0) with 1%N in M1. change (width 2) with 1%N. lia.
+Qed.
+
+Lemma Wd_mono x y : 0 <= x <= y -> x < two64z -> (Wd x <= Wd y)%N.
+Proof.
+  intros H Hx. destruct (Z.lt_ge_cases y two64z) as [Hy|Hy].
+  - unfold Wd, cint. destruct (0 <=? x) eqn:E1; [|lia]. destruct (0 <=? y) eqn:E2; [|lia].
+    destruct (x <? two64z) eqn:E3; [|lia]. destruct (y <? two64z) eqn:E4; [|lia].
+    cbn [enc]. rewrite !head_length. apply width_mono. lia.
+  - pose proof (Wd_le9 x ltac:(lia)). pose proof (Wd_big y Hy). lia.
 Qed.
 
 (* ================================================================== D. _calc_change *)
@@ -759,47 +773,60 @@ Proof.
 Qed.
 
 (* ---------- sizes of the change values ---------- *)
-Lemma reqd_ge c addr v : 0 <= cpb c -> 160 * cpb c <= reqd c addr v.
-Proof. intros H. unfold reqd. rewrite min_lovelace_plain. nia. Qed.
-
-Lemma part_fits_bound c addr ma : 65536 <= 160 * cpb c -> part_fits c addr mc ma ->
-  Z.of_N (5 + msz ma) <= max_val_size c.
-Proof.
-  intros Hc [c0 F]. unfold fit in F. rewrite too_big_eq in F. cbn [massets] in F.
-  pose proof (reqd_ge c addr (mkValue c0 ma) ltac:(lia)) as G.
-  pose proof (Wd_ge5 (reqd c addr (mkValue c0 ma)) ltac:(lia)). lia.
-Qed.
-
 Lemma vsize_eq v : vsize v = Z.of_N (Wd (coin v) + msz (massets v)).
 Proof. unfold vsize. rewrite <- (value_eta v) at 1. now rewrite vsize_split. Qed.
 
-Theorem calc_change_sizes c i change outs : wf_in i -> change_of i = Ok change ->
-  singles_fit c (cc_addr i) (massets change) -> fit c (cc_addr i) (mkValue (coin change) []) ->
-  65536 <= 160 * cpb c -> calc_change c i = Ok outs ->
-  Forall (fun v => (0 <= coin v < two32z -> vsize v <= max_val_size c)
-                   /\ (0 <= coin v < two64z -> vsize v <= max_val_size c + 4)) outs.
+(* no change output receives more ADA than the change holds *)
+Lemma split_coins_le c addr r : 0 <= cpb c -> forall arr C acc outs, arr <> [] ->
+  split_coins c addr r arr C acc = Ok outs ->
+  exists new, outs = acc ++ new /\ Forall (fun v => 0 <= coin v <= C) new.
 Proof.
-  intros Wi Ch Hs Hb Hc H. unfold calc_change in H. rewrite Ch in H.
+  intros Hc. induction arr as [|ma rest IH]; intros C acc outs Hne H; [congruence|].
+  cbn [split_coins] in H.
+  destruct ((C <? 0) || (r && (C <? mn c addr ma))) eqn:Chk; [discriminate|].
+  destruct rest as [|m2 rest'].
+  - cbn [split_coins coin] in H. apply Ok_inj in H. subst outs.
+    exists [mkValue C ma]. split; [reflexivity|]. constructor; [cbn; lia | constructor].
+  - cbn [coin] in H.
+    pose proof (min_lovelace_nonneg c (plain addr (mkValue 0 ma)) Hc) as Hmn. fold (mn c addr ma) in Hmn.
+    (* the next iteration exists and did not refuse: the ADA left after this output is not negative *)
+    assert (Nx : 0 <= C - mn c addr ma).
+    { cbn [split_coins] in H. destruct (C - mn c addr ma <? 0) eqn:Chk2; [cbn [orb] in H; discriminate | lia]. }
+    apply IH in H; [|discriminate].
+    destruct H as (new & -> & Hp).
+    exists (mkValue (mn c addr ma) ma :: new). split; [now rewrite <- app_assoc|].
+    constructor; [cbn; lia|]. eapply Forall_impl; [|exact Hp]. cbn. intros v Hv. lia.
+Qed.
+
+(* C08_size: every change value fits max_val_size.  The packer sized each part with
+   max(minimum ADA, ADA of the whole change); no output receives more than the latter. *)
+Theorem calc_change_sizes c i change outs : 0 <= cpb c -> wf_in i -> change_of i = Ok change ->
+  singles_fit c (cc_addr i) (coin change) (massets change) ->
+  fit c (cc_addr i) (coin change) (mkValue (coin change) []) ->
+  coin change < two64z -> calc_change c i = Ok outs ->
+  Forall (fun v => vsize v <= max_val_size c) outs.
+Proof.
+  intros Hcp Wi Ch Hs Hb H64 H. unfold calc_change in H. rewrite Ch in H.
   destruct (change_of_spec i change Wi Ch) as (Wc & Pc & Cc & C0 & Mc).
   unfold split_change in H. set (addr := cc_addr i) in *.
-  assert (Bound : forall ma, part_fits c addr mc ma -> forall v, massets v = ma ->
-            (0 <= coin v < two32z -> vsize v <= max_val_size c)
-            /\ (0 <= coin v < two64z -> vsize v <= max_val_size c + 4)).
-  { intros ma Pf v Ev. pose proof (part_fits_bound c addr ma Hc Pf) as B. rewrite vsize_eq, Ev. split; intros Hv.
-    - pose proof (Wd_small (coin v) Hv). lia.
-    - pose proof (Wd_le9 (coin v) Hv). lia. }
+  assert (Bound : forall ma, part_fits c addr (coin change) ma -> forall v, massets v = ma -> 0 <= coin v <= coin change ->
+            vsize v <= max_val_size c).
+  { intros ma [c0 F] v Ev Hv. unfold fit in F. rewrite too_big_eq in F. cbn [massets] in F.
+    rewrite vsize_eq, Ev.
+    pose proof (Wd_mono (coin v) (Z.max (reqd c addr (mkValue c0 ma)) (coin change)) ltac:(lia) ltac:(lia)). lia. }
   destruct (is_nil (massets change)) eqn:Nil.
   - destruct (cc_respect i && (coin change <? min_lovelace c (plain addr change))); [discriminate|].
     apply Ok_inj in H. subst outs. constructor; [|constructor].
-    apply (Bound []); [now exists (coin change) | reflexivity].
+    apply (Bound []); [now exists (coin change) | reflexivity | cbn [coin]; lia].
   - destruct (pack_tokens c addr change) as [arr|e] eqn:Pk; [|discriminate].
     rewrite split_loop_coins in H.
-    assert (Hcp : 0 <= cpb c) by lia.
     destruct (split_coins_spec c addr (cc_respect i) Hcp arr (coin change) [] outs (pack_nonempty _ _ _ _ Pk) H)
       as (new & E & Hm & _). cbn [app] in E. subst new.
+    destruct (split_coins_le c addr (cc_respect i) Hcp arr (coin change) [] outs (pack_nonempty _ _ _ _ Pk) H)
+      as (new & E & Hle). cbn [app] in E. subst new.
     pose proof (pack_fits c addr change arr Wc Hs Hb Pk) as Pf.
     rewrite <- Hm in Pf. rewrite Forall_map in Pf.
-    rewrite Forall_forall in *. intros v Hv. apply (Bound (massets v)); [apply Pf, Hv | reflexivity].
+    rewrite Forall_forall in *. intros v Hv. apply (Bound (massets v)); [apply Pf, Hv | reflexivity | apply Hle, Hv].
 Qed.
 
 (* ---------- refusal ---------- *)
@@ -1071,17 +1098,33 @@ Definition x_n0 : bytes := hx "0000787878787878787878787878787878787878787878787
 Definition x_n1 : bytes := hx "0001787878787878787878787878787878787878787878787878787878787878".
 Definition x_n2 : bytes := hx "0002787878787878787878787878787878787878787878787878787878787878".
 
-(* known finding last-change-plus-4-bytes: max_val_size 143, the bundle fits with the 5-byte minimum ADA (143 bytes),
-   the last (only) change output then receives 4 303 767 296 lovelace >= 2^32 and its value has 147 bytes *)
+(* former finding last-change-plus-4-bytes (fixed by c8b4af1): max_val_size 143; the bundle would fit with the 5-byte
+   minimum ADA but the change holds 4 303 767 296 lovelace >= 2^32: the packer now sizes with that coin and splits *)
 Definition w4_cfg : cfg := mkCfg 4310 143.
 Definition w4_in : cc_in :=
   mkIn 200000 [mkValue 4304967296 [(x_p1, [(x_n0, 1); (x_n1, 1); (x_n2, 1)])]] [mkValue 1000000 []] [] [] 0 x_addr_b true.
+Example size_plus4_fixed :
+  exists v1 v2, calc_change w4_cfg w4_in = Ok [v1; v2] /\ vsize v1 = 108 /\ vsize v2 = 77 /\ two32z <= coin v2.
+Proof. eexists. eexists. split; [vm_compute; reflexivity|]. vm_compute. intuition discriminate. Qed.
 
-Lemma size_plus4_witness :
-  exists outs v, calc_change w4_cfg w4_in = Ok outs /\ In v outs /\ two32z <= coin v < two64z
-                 /\ vsize v = max_val_size w4_cfg + 4.
+(* former region small-cpb-coin-width (same fix): coins_per_utxo_byte = 1, max_val_size 106 *)
+Definition wsm_cfg : cfg := mkCfg 1 106.
+Definition wsm_in : cc_in := mkIn 200000 [mkValue 1400000 [(x_p1, [(x_n0, 1); (x_n1, 1)])]] [] [] [] 0 x_addr_b true.
+Example size_small_cpb_fixed :
+  exists outs, calc_change wsm_cfg wsm_in = Ok outs /\ forallb (fun v => vsize v <=? max_val_size wsm_cfg) outs = true.
+Proof. eexists. split; [vm_compute; reflexivity|]. vm_compute. reflexivity. Qed.
+
+(* the premise "every single asset fits" of the size theorem is needed — OUTSIDE the property's range: with
+   max_val_size = 60 (< 85) an asset with a 32-byte name does not fit on its own; the packer then returns an empty
+   part and a part of 73 bytes (it only refuses when the LAST asset of a policy is the oversized one) *)
+Definition wo_cfg : cfg := mkCfg 4310 60.
+Definition wo_in : cc_in := mkIn 200000 [mkValue 9000000 [(x_p1, [(x_n0, 1); (hx "", 1)])]] [] [] [] 0 x_addr_b true.
+Lemma size_oversized_single_out_of_range :
+  exists outs v, max_val_size wo_cfg < 85 /\ calc_change wo_cfg wo_in = Ok outs /\ In v outs
+                 /\ max_val_size wo_cfg < vsize v.
 Proof.
-  eexists. eexists. split; [vm_compute; reflexivity|]. split; [left; reflexivity|]. vm_compute. intuition discriminate.
+  eexists. eexists. split; [cbn; lia|]. split; [vm_compute; reflexivity|]. split; [right; left; reflexivity|].
+  vm_compute. reflexivity.
 Qed.
 
 (* a scenario satisfying every hypothesis used above, with a change that needs two outputs *)
@@ -1092,11 +1135,12 @@ Definition ex_in : cc_in :=
 Definition ex_change : value := mkValue 7830000 [(x_p1, [(x_n0, 3); (x_n1, 1)]); (x_p2, [(hx "", 3)])].
 
 Example ex_hypotheses :
-  0 <= cpb ex_cfg /\ 65536 <= 160 * cpb ex_cfg /\ wf_in ex_in /\ change_of ex_in = Ok ex_change
-  /\ singles_fit ex_cfg x_addr_b (massets ex_change) /\ fit ex_cfg x_addr_b (mkValue (coin ex_change) [])
+  0 <= cpb ex_cfg /\ coin ex_change < two64z /\ wf_in ex_in /\ change_of ex_in = Ok ex_change
+  /\ singles_fit ex_cfg x_addr_b (coin ex_change) (massets ex_change)
+  /\ fit ex_cfg x_addr_b (coin ex_change) (mkValue (coin ex_change) [])
   /\ exists v1 v2, calc_change ex_cfg ex_in = Ok [v1; v2] /\ massets v1 <> [] /\ massets v2 <> [].
 Proof.
-  split; [cbn; lia|]. split; [cbn; lia|]. split.
+  split; [cbn; lia|]. split; [reflexivity|]. split.
   { unfold wf_in, wfv, wfm, wfd. cbn. repeat split; repeat constructor; cbn; intuition discriminate. }
   split; [vm_compute; reflexivity|]. split.
   { unfold singles_fit, fit. cbn [massets ex_change fst snd]. repeat constructor. }
@@ -1158,16 +1202,4 @@ Proof.
   - constructor; [|constructor]. unfold wfv, wfm, wfd. cbn. repeat split; repeat constructor; cbn; intuition discriminate.
   - apply wfm_nil.
   - vm_compute. reflexivity.
-Qed.
-
-(* region small-cpb-coin-width: with coins_per_utxo_byte < 410 the minimum ADA needs fewer than 5 bytes, the value is
-   sized with it (3-byte coin: 106 bytes) and then carries 1 200 000 lovelace (5-byte coin: 108 bytes) *)
-Definition wsm_cfg : cfg := mkCfg 1 106.
-Definition wsm_in : cc_in := mkIn 200000 [mkValue 1400000 [(x_p1, [(x_n0, 1); (x_n1, 1)])]] [] [] [] 0 x_addr_b true.
-Lemma size_small_cpb_witness :
-  exists outs v, 160 * cpb wsm_cfg < 65536 /\ calc_change wsm_cfg wsm_in = Ok outs /\ In v outs
-                 /\ 0 <= coin v < two32z /\ max_val_size wsm_cfg < vsize v.
-Proof.
-  eexists. eexists. split; [cbn; lia|]. split; [vm_compute; reflexivity|]. split; [left; reflexivity|].
-  vm_compute. intuition discriminate.
 Qed.
